@@ -169,27 +169,70 @@ func checkC12(c *Ctx, r *Report) {
 	// ---------- R2 ----------
 	r.Rule("C12-R2", "TransformRequest calls Decoder.DisallowUnknownFields before Decode and AnthropicRequest.Validate before building the upstream map, returning a non-nil error on their failure; in the translation handler the translated dispatch is dominated by TransformRequest's success and its failure branch writes status 400 through writeTranslatorError", 3)
 	var mk, validate, disallow, decode ssa.Instruction
+	scanDV := func(g *ssa.Function) (v, dis, dec ssa.Instruction) {
+		eachInstr(g, func(in ssa.Instruction) {
+			if cc := getCall(in); cc != nil {
+				ci := describeCall(cc)
+				switch {
+				case ci.Name == "Validate" && ci.Recv == "AnthropicRequest":
+					v = in
+				case ci.Name == "DisallowUnknownFields":
+					dis = in
+				case ci.Name == "Decode" && ci.Recv == "Decoder":
+					dec = in
+				}
+			}
+		})
+		return
+	}
 	eachInstr(tr, func(in ssa.Instruction) {
 		if _, ok := in.(*ssa.MakeMap); ok && mk == nil {
 			mk = in
 		}
-		if cc := getCall(in); cc != nil {
-			ci := describeCall(cc)
-			switch {
-			case ci.Name == "Validate" && ci.Recv == "AnthropicRequest":
-				validate = in
-			case ci.Name == "DisallowUnknownFields":
-				disallow = in
-			case ci.Name == "Decode" && ci.Recv == "Decoder":
-				decode = in
+	})
+	validate, disallow, decode = scanDV(tr)
+	helperOK := true
+	if validate == nil && decode == nil {
+		// decoding and validation extracted into one helper (`req, body, err := t.decodeRequest(r.Body)`): inside it the
+		// strict decode and Validate guard every nil-error return; in TransformRequest the helper's call takes their place
+		for _, h := range withHelpers(tr, 2)[1:] {
+			hv, hdis, hdec := scanDV(h)
+			if hv == nil || hdec == nil {
+				continue
+			}
+			if hdis == nil || !instrDominates(hdis, hdec) {
+				disallow = nil
+			}
+			res := h.Signature.Results()
+			for _, vr := range virtualReturns(h, res.Len()-1) {
+				if !isNilConst(vr.Val) {
+					continue
+				}
+				if !instrDominates(hv, vr.At) || !instrDominates(hdec, vr.At) || !errGuardReturns(hv, vr.At) || !errGuardReturns(hdec, vr.At) {
+					helperOK = false
+				}
+			}
+			var site ssa.Instruction
+			eachInstr(tr, func(in ssa.Instruction) {
+				if cc := getCall(in); cc != nil && cc.StaticCallee() == h {
+					site = in
+				}
+			})
+			if site != nil {
+				validate, decode = site, site
+				if hdis != nil && instrDominates(hdis, hdec) {
+					disallow = site
+				}
 			}
 		}
-	})
+	}
 	key := fname(tr) + ":validate-before-build"
 	switch {
+	case !helperOK:
+		r.Bad("C12-R2", key, tr.Pos(), "the helper that decodes and validates the request can answer without an error although Decode or Validate failed")
 	case validate == nil || mk == nil || decode == nil:
 		r.Bad("C12-R2", key, tr.Pos(), "TransformRequest no longer decodes and validates the request before building the upstream request")
-	case disallow == nil || !instrDominates(disallow, decode):
+	case disallow == nil || (disallow != decode && !instrDominates(disallow, decode)):
 		r.Bad("C12-R2", key, tr.Pos(), "the decoder does not reject unknown fields (DisallowUnknownFields must precede Decode)")
 	case !instrDominates(validate, mk) || !errGuardReturns(validate, mk):
 		r.Bad("C12-R2", key, validate.Pos(), "the upstream request can be built without a successful Validate()")
@@ -515,7 +558,15 @@ func errGuardReturns(c, next ssa.Instruction) bool {
 		return false
 	}
 	for _, cf := range normFacts(condFacts(next.Block())) {
-		if bo, ok := cf.Cond.(*ssa.BinOp); ok && bo.X == v && isNilConst(bo.Y) {
+		bo, ok := cf.Cond.(*ssa.BinOp)
+		if !ok || !isNilConst(bo.Y) {
+			continue
+		}
+		same := bo.X == v
+		if ex, isEx := bo.X.(*ssa.Extract); isEx && ex.Tuple == v {
+			same = true // the error half of a multi-value result
+		}
+		if same {
 			if (bo.Op == token.NEQ && !cf.True) || (bo.Op == token.EQL && cf.True) {
 				return true
 			}
@@ -1265,6 +1316,17 @@ func checkC13(c *Ctx, r *Report) {
 					return
 				}
 				sc := cc.StaticCallee()
+				if sc == nil && !cc.IsInvoke() && line == nil && inLoop(in.Block()) {
+					// the loop calls the per-line handler through a func value (a closure built by the caller): the
+					// handler is found structurally, the function holding the loop is the line loop
+					for _, a := range cc.Args {
+						if a.Type().String() == "string" {
+							if lh := findLineHandler(c); lh != nil && emitsEvent(c, lh, "content_block_delta", 5, map[*ssa.Function]bool{}) {
+								line, sync = lh, f
+							}
+						}
+					}
+				}
 				if sc == nil || !strings.HasSuffix(fnPkgPath(sc), pkgAnthropic) {
 					return
 				}
